@@ -13,7 +13,7 @@
 From Coq Require Import NArith List Bool.
 From AV Require Import Generated.Style Generated.WinconAnsi
   Spec.Utf8 Spec.Vt Spec.Strip Spec.Sgr Spec.Io Spec.AnsiFrame
-  Model.WinconAnsi Proofs.IoFacts Proofs.VtCompose Proofs.WinconAnsi.
+  Model.WinconAnsi Proofs.IoFacts Proofs.VtCompose Proofs.WinconAnsi Generated.WinconAnsiFn Proofs.WinconAnsiGen.
 Import ListNotations.
 Local Open Scope N_scope.
 
@@ -128,3 +128,18 @@ Theorem c17_example :
   w_received w' = [27; 91; 51; 49; 109] ++ [27; 91; 49; 48; 52; 109] ++ [104; 105] ++ [27; 91; 48; 109] /\
   length (w_calls w') = 6%nat.
 Proof. exact example_run. Qed.
+
+(* ---- the tie by translation --------------------------------------------------------- *)
+
+(* Generated/WinconAnsiFn.v is written on every run by tools/gen_fn_wincon_ansi.py (tools/rs2v) from the
+   Rust source of anstyle_wincon::ansi::write_colored; over any inner writer (script, bytes received so
+   far, call history), any colours and any data it leaves the writer and answers the io::Result the hand
+   model -- the subject of every theorem above -- computes *)
+Theorem c17_translated_write_colored_is_model : forall w fg bg data,
+  g_write_colored w fg bg data = wa_write_colored fg bg data w.
+Proof. exact translated_write_colored_is_model. Qed.
+
+(* hence the translated code computes the specification's coloured write (Spec/AnsiFrame) *)
+Theorem c17_translated_write_colored_is_spec : forall w fg bg data,
+  g_write_colored w fg bg data = sa_write_colored (wa_idx fg) (wa_idx bg) data w.
+Proof. exact translated_write_colored_is_spec. Qed.
